@@ -323,6 +323,9 @@ ECON_SIM = dict(module="MC_Hub.tla", cfg="MC_EconSim.cfg", family="econ", num=(4
                 quick={"MaxLen": "40"}, thorough={"MaxLen": "70"})
 ECON2_SIM = dict(module="MC_Hub.tla", cfg="MC_Econ2Sim.cfg", family="econ", num=(40, 600), depth=200, timeout=3000,
                  quick={"MaxLen": "60"}, thorough={"MaxLen": "80"})
+# the same behaviours on a genesis with a holders list (commission discount tiers: e5 holds exactly 2, e6 just below 32, e8 exactly 1 HUB)
+ECONH_SIM = dict(module="MC_Hub.tla", cfg="MC_EconHoldSim.cfg", family="econ", num=(20, 300), depth=200, timeout=3000,
+                 quick={"MaxLen": "40"}, thorough={"MaxLen": "70"}, script_cfg="cfg_holders.json")
 FEES_SIM = dict(module="MC_Hub.tla", cfg="MC_FeesSim.cfg", family="fees", num=(60, 800), depth=240, timeout=3000,
                 quick={"MaxLen": "70"}, thorough={"MaxLen": "90"}, script_cfg="cfg_keys_prices.json")
 # governance: passed cold-storage proposals among the econ actions
@@ -392,7 +395,7 @@ PROPS = {
     "C02": dict(mc=[ATTEST_MC], sim=[ATTEST_SIM, ECON_SIM], static=["attest*.ndjson"],
                 watch=["C02:", "conf:votes", "conf:lon"],
                 need={"Claim/ok": 5, "Claim/err": 1, "End/ok": 3, "Stake/ok": 1}),
-    "C11": dict(mc=[ECON_MC], sim=[ECON_SIM, FEES_SIM], static=["econ*.ndjson"],
+    "C11": dict(mc=[ECON_MC], sim=[ECON_SIM, ECONH_SIM, FEES_SIM], static=["econ*.ndjson"],
                 watch=["C11:", "conf:bal", "conf:sup", "conf:pool", "conf:out"],
                 need={"Send/ok": 5, "Send/err": 1, "Claim/ok": 6, "End/ok": 3}),
     "C03": dict(mc=[ATTEST_MC], sim=[ATTEST_SIM, ECON_SIM], static=["attest*.ndjson"],
